@@ -486,8 +486,8 @@ Definition step (s : st) (t : token) : result st :=
     end
   | Instr name p =>
     if str_eqb name s_load then
-      (* params[0].fwtagtype on something that is not a list of lines.  From text only
-         "#>load" (a dict) can produce such a token; "##load:" is refused by the parser *)
+      (* params[0].fwtagtype on something that is not a list of lines.  Not reachable from
+         text: the parser refuses "#>load" and "##load:" (reserved name) *)
       match p with
       | PStr [] => Err EIndex
       | PStr _ => Err EType             (* AttributeError in Python: not in the enum, never compared *)
@@ -557,8 +557,10 @@ Definition parse_params (ps : str) : result (list (str * str)) :=
 
 Definition parse_cmd_line (rest : str) : result token :=       (* rest = line[2:] *)
   match split_ws1 rest with
-  | [cmd] => let* d := parse_params [] in Ok (Instr cmd (PDict d))
-  | [cmd; ps] => let* d := parse_params ps in Ok (Instr cmd (PDict d))
+  | [cmd] => let* d := parse_params [] in
+             if str_eqb cmd s_load then Err EValue else Ok (Instr cmd (PDict d))   (* reserved name *)
+  | [cmd; ps] => let* d := parse_params ps in
+                 if str_eqb cmd s_load then Err EValue else Ok (Instr cmd (PDict d))
   | _ => Err EValue
   end.
 
@@ -575,22 +577,30 @@ Fixpoint parse_lines (lns : list str) (fwdata_rev : list line) : result (list to
   | [] => Ok []                          (* pending data without end marker is dropped *)
   | ln :: t =>
     match ln with
-    | 58 :: _ =>
-      let* l := parse_data_line ln in
-      if l_type l =? 255 then
-        match fwdata_rev with
-        | [] => parse_lines t []
-        | _ => let* r := parse_lines t [] in Ok (Load (rev fwdata_rev) :: r)
+    | [] => parse_lines t fwdata_rev
+    | c0 :: rest0 =>
+      if c0 =? 58 then                                           (* line.startswith(":") *)
+        let* l := parse_data_line ln in
+        if l_type l =? 255 then
+          match fwdata_rev with
+          | [] => parse_lines t []
+          | _ => let* r := parse_lines t [] in Ok (Load (rev fwdata_rev) :: r)
+          end
+        else if l_type l =? 254 then parse_lines t fwdata_rev
+        else parse_lines t (l :: fwdata_rev)
+      else if c0 =? 35 then
+        match rest0 with
+        | [] => parse_lines t fwdata_rev
+        | c1 :: rest =>
+          if c1 =? 62 then                                       (* "#>" *)
+            let* tk := parse_cmd_line rest in
+            let* r := parse_lines t fwdata_rev in Ok (tk :: r)
+          else if c1 =? 35 then                                  (* "##" *)
+            let* tk := parse_meta_line rest in
+            let* r := parse_lines t fwdata_rev in Ok (tk :: r)
+          else parse_lines t fwdata_rev
         end
-      else if l_type l =? 254 then parse_lines t fwdata_rev
-      else parse_lines t (l :: fwdata_rev)
-    | 35 :: 62 :: rest =>
-      let* tk := parse_cmd_line rest in
-      let* r := parse_lines t fwdata_rev in Ok (tk :: r)
-    | 35 :: 35 :: rest =>
-      let* tk := parse_meta_line rest in
-      let* r := parse_lines t fwdata_rev in Ok (tk :: r)
-    | _ => parse_lines t fwdata_rev
+      else parse_lines t fwdata_rev
     end
   end.
 
